@@ -142,3 +142,20 @@ func (r *Recorder) timeoutReported() bool {
 func (l LogRec) String() string {
 	return fmt.Sprintf("%d t=%s %s %q %v", l.Seq, time.Duration(l.T), l.Level, l.Msg, l.Attrs)
 }
+
+// timeoutReportedAt returns the simulated instant at which the completion-timeout warning was emitted (-1: never).
+func (r *Recorder) timeoutReportedAt() int64 {
+	r.mu.Lock()
+	defer r.mu.Unlock()
+	for _, l := range r.Logs {
+		if strings.HasPrefix(l.Msg, "Active tests not completed") {
+			return l.T
+		}
+	}
+	for _, l := range r.Err {
+		if strings.Contains(l.Text, "Active tests not completed") {
+			return l.T
+		}
+	}
+	return -1
+}
